@@ -66,6 +66,157 @@ pub uninterp spec fn be_bytes_u64(x: u64) -> Seq<u8>;
 pub fn u64_to_be_bytes(x: u64) -> (r: [u8; 8]) ensures r@ == be_bytes_u64(x) { x.to_be_bytes() }   // A1 (R-std wrapper)
 """
 
+PRELUDE_NEW = r"""
+// ---------------- prelude for Schedule::new (R-type: BTreeMap<PublicKey, _> as a key-ordered sequence; A3: Ord on keys is blst) ----------------
+#[verifier::external_body] pub struct AnyhowError { _p: u8 }
+#[verifier::external_body] pub fn anyhow_error() -> AnyhowError { unimplemented!() }
+pub trait VerifContextOpt<T> { fn context(self, c: ()) -> Result<T, AnyhowError>; }
+impl<T> VerifContextOpt<T> for Option<T> {       // anyhow::Context on Option (A1)
+    #[verifier::external_body] fn context(self, c: ()) -> (r: Result<T, AnyhowError>)
+        ensures r.is_ok() == self.is_some(), self.is_some() ==> r == Result::<T, AnyhowError>::Ok(self.unwrap()) { unimplemented!() }
+}
+pub uninterp spec fn key_lt(a: PublicKey, b: PublicKey) -> bool;            // the (total, strict) order of validator keys
+pub broadcast axiom fn key_lt_irrefl(a: PublicKey) ensures !#[trigger] key_lt(a, a);
+pub open spec fn sorted_by_key(s: Seq<ValidatorInfo>) -> bool {
+    forall|i: int, j: int| 0 <= i < j < s.len() ==> key_lt(#[trigger] s[i].key, #[trigger] s[j].key)
+}
+#[verifier::external_body] pub struct KeyMap { _p: u8 }                     // BTreeMap<PublicKey, ValidatorInfo>
+impl KeyMap {
+    pub uninterp spec fn entries(&self) -> Seq<ValidatorInfo>;             // values in key order
+    #[verifier::external_body] pub fn new() -> (r: Self) ensures r.entries().len() == 0 { unimplemented!() }
+    #[verifier::external_body] pub fn contains_key(&self, k: &PublicKey) -> (r: bool)
+        ensures r == (exists|i: int| 0 <= i < self.entries().len() && (#[trigger] self.entries()[i]).key == *k) { unimplemented!() }
+    #[verifier::external_body] pub fn is_empty(&self) -> (r: bool) ensures r == (self.entries().len() == 0) { unimplemented!() }
+    // A1 (BTreeMap::insert of an absent key): the value is placed at its position in key order; nothing else moves
+    #[verifier::external_body] pub fn insert(&mut self, k: PublicKey, v: ValidatorInfo) -> (r: Option<ValidatorInfo>)
+        requires v.key == k, sorted_by_key(old(self).entries()),
+                 !(exists|i: int| 0 <= i < old(self).entries().len() && (#[trigger] old(self).entries()[i]).key == k),
+        ensures sorted_by_key(final(self).entries()),
+                exists|p: int| 0 <= p <= old(self).entries().len() && #[trigger] final(self).entries() == old(self).entries().insert(p, v),
+    { unimplemented!() }
+}
+// R-forindex: `for v in validators` consumes the vector; the i-th element by value (A1: into_iter yields the elements in order)
+#[verifier::external_body] pub fn verif_nth_owned(v: &Vec<ValidatorInfo>, i: usize) -> (r: ValidatorInfo) requires i < v@.len() ensures r == v@[i as int] { unimplemented!() }
+// map.into_values().collect::<Vec<_>>()        (A1)
+#[verifier::external_body] pub fn tmpl_map_into_values_collect(m: KeyMap) -> (r: Vec<ValidatorInfo>) ensures r@ == m.entries() { unimplemented!() }
+// vec.iter().enumerate().map(F).collect::<BTreeMap<PublicKey, usize>>()      (A1); keys pairwise distinct => no entry is overwritten
+#[verifier::external_body]
+pub fn tmpl_iter_enumerate_map_collect_index<'a, F: FnMut((usize, &'a ValidatorInfo)) -> (PublicKey, usize)>(v: &'a Vec<ValidatorInfo>, f: F) -> (r: KeyIndex)
+    requires
+        forall|i: usize| i < v@.len() ==> f.requires(((i, #[trigger] &v@[i as int]),)),
+        forall|i: usize, x: (PublicKey, usize)| i < v@.len() && #[trigger] f.ensures(((i, &v@[i as int]),), x) ==> x.0 == v@[i as int].key && x.1 == i,
+        forall|i: int, j: int| 0 <= i < j < v@.len() ==> (#[trigger] v@[i]).key != (#[trigger] v@[j]).key,
+    ensures r.inverse_of(v@),
+{ unimplemented!() }
+pub open spec fn fm_seq(gf: spec_fn(int) -> Option<usize>, k: int) -> Seq<usize>
+    decreases k
+{ if k <= 0 { Seq::empty() } else if gf(k - 1).is_some() { fm_seq(gf, k - 1).push(gf(k - 1).unwrap()) } else { fm_seq(gf, k - 1) } }
+// vec.iter().enumerate().filter_map(F).collect::<Vec<usize>>()      (A1)
+#[verifier::external_body]
+pub fn tmpl_iter_enumerate_filter_map_collect<'a, F: FnMut((usize, &'a ValidatorInfo)) -> Option<usize>>(
+    v: &'a Vec<ValidatorInfo>, f: F, Ghost(gf): Ghost<spec_fn(int) -> Option<usize>>) -> (r: Vec<usize>)
+    requires
+        forall|i: usize| i < v@.len() ==> f.requires(((i, #[trigger] &v@[i as int]),)),
+        forall|i: usize, o: Option<usize>| i < v@.len() && #[trigger] f.ensures(((i, &v@[i as int]),), o) ==> o == gf(i as int),
+    ensures r@ == fm_seq(gf, v@.len() as int),
+{ unimplemented!() }
+impl KeyIndex {
+    // indexes[key] == i  <=>  vec[i].key == key
+    pub uninterp spec fn map(&self) -> Map<PublicKey, usize>;
+    pub open spec fn inverse_of(&self, vec: Seq<ValidatorInfo>) -> bool {
+        &&& forall|i: int| 0 <= i < vec.len() ==> self.map().contains_key(#[trigger] vec[i].key) && self.map()[vec[i].key] == i
+        &&& forall|k: PublicKey| #[trigger] self.map().contains_key(k) ==> self.map()[k] < vec.len() && vec[self.map()[k] as int].key == k
+    }
+    #[verifier::external_body] pub fn contains_key(&self, k: &PublicKey) -> (r: bool) ensures r == self.map().contains_key(*k) { unimplemented!() }
+    #[verifier::external_body] pub fn get(&self, k: &PublicKey) -> (r: Option<&usize>)
+        ensures r.is_some() == self.map().contains_key(*k), r.is_some() ==> *r.unwrap() == self.map()[*k] { unimplemented!() }
+}
+"""
+
+LEMMAS_NEW = r"""
+// ---------------- lemmas for Schedule::new ----------------
+pub open spec fn lsum(vec: Seq<ValidatorInfo>, k: int) -> int
+    decreases k
+{ if k <= 0 { 0 } else { lsum(vec, k - 1) + (if vec[k - 1].leader { vec[k - 1].weight as int } else { 0 }) } }
+pub open spec fn leader_idx(vec: Seq<ValidatorInfo>) -> spec_fn(int) -> Option<usize> {
+    |i: int| if vec[i].leader { Some(i as usize) } else { None }
+}
+// inserting one entry anywhere adds exactly its weight to both sums
+pub proof fn lemma_sums_insert(s: Seq<ValidatorInfo>, p: int, v: ValidatorInfo)
+    requires 0 <= p <= s.len(),
+    ensures total(s.insert(p, v), s.len() as int + 1) == total(s, s.len() as int) + v.weight,
+            lsum(s.insert(p, v), s.len() as int + 1) == lsum(s, s.len() as int) + (if v.leader { v.weight as int } else { 0 }),
+            0 <= lsum(s, s.len() as int) <= total(s, s.len() as int),
+    decreases s.len() - p
+{
+    let t = s.insert(p, v);
+    lemma_lsum_le_total(s, s.len() as int);
+    if p == s.len() {
+        assert(t.drop_last() =~= s);
+        lemma_sums_prefix(t, s, s.len() as int);
+    } else {
+        let s1 = s.drop_last();
+        lemma_sums_insert(s1, p, v);
+        assert(t.drop_last() =~= s1.insert(p, v));
+        assert(t[t.len() - 1] == s[s.len() - 1]);
+        lemma_sums_prefix(t, s1.insert(p, v), s.len() as int);
+        lemma_sums_prefix(s, s1, s.len() - 1);
+    }
+}
+pub proof fn lemma_sums_prefix(a: Seq<ValidatorInfo>, b: Seq<ValidatorInfo>, k: int)
+    requires 0 <= k <= a.len(), k <= b.len(), forall|i: int| 0 <= i < k ==> a[i] == b[i],
+    ensures total(a, k) == total(b, k), lsum(a, k) == lsum(b, k),
+    decreases k
+{ if k > 0 { lemma_sums_prefix(a, b, k - 1); } }
+pub proof fn lemma_lsum_le_total(s: Seq<ValidatorInfo>, k: int)
+    requires 0 <= k <= s.len(),
+    ensures 0 <= lsum(s, k) <= total(s, k),
+    decreases k
+{ if k > 0 { lemma_lsum_le_total(s, k - 1); } }
+// the collected leader indices are exactly the eligible positions, increasing, and their prefix sum is the leader weight
+pub proof fn lemma_leaders(vec: Seq<ValidatorInfo>, k: int)
+    requires 0 <= k <= vec.len(), vec.len() <= usize::MAX,
+    ensures
+        forall|i: int| 0 <= i < fm_seq(leader_idx(vec), k).len() ==> (#[trigger] fm_seq(leader_idx(vec), k)[i]) < k && vec[fm_seq(leader_idx(vec), k)[i] as int].leader,
+        forall|i: int, j: int| 0 <= i < j < fm_seq(leader_idx(vec), k).len() ==> fm_seq(leader_idx(vec), k)[i] < fm_seq(leader_idx(vec), k)[j],
+        forall|j: int| 0 <= j < k && (#[trigger] vec[j]).leader ==> exists|i: int| 0 <= i < fm_seq(leader_idx(vec), k).len() && fm_seq(leader_idx(vec), k)[i] == j,
+        prefix(vec, fm_seq(leader_idx(vec), k), fm_seq(leader_idx(vec), k).len() as int) == lsum(vec, k),
+    decreases k
+{
+    if k > 0 {
+        lemma_leaders(vec, k - 1);
+        let f0 = fm_seq(leader_idx(vec), k - 1);
+        let f1 = fm_seq(leader_idx(vec), k);
+        if vec[k - 1].leader {
+            assert(f1 == f0.push((k - 1) as usize));
+            lemma_prefix_ext(vec, f1, f0, f0.len() as int);
+            assert forall|j: int| 0 <= j < k && (#[trigger] vec[j]).leader implies exists|i: int| 0 <= i < f1.len() && f1[i] == j by {
+                if j == k - 1 { assert(f1[f1.len() - 1] == j); }
+                else { let i = choose|i: int| 0 <= i < f0.len() && f0[i] == j; assert(f1[i] == j); }
+            }
+        } else {
+            assert(f1 == f0);
+        }
+    }
+}
+pub proof fn lemma_total_pos(vec: Seq<ValidatorInfo>, k: int)
+    requires 1 <= k <= vec.len(), forall|j: int| 0 <= j < vec.len() ==> (#[trigger] vec[j]).weight > 0,
+    ensures total(vec, k) >= 1,
+    decreases k
+{ if k > 1 { lemma_total_pos(vec, k - 1); } else { assert(total(vec, 0) == 0); } assert(vec[k - 1].weight > 0); }
+pub proof fn lemma_prefix_pos(vec: Seq<ValidatorInfo>, leaders: Seq<usize>, k: int)
+    requires 1 <= k <= leaders.len(), forall|i: int| 0 <= i < leaders.len() ==> (#[trigger] leaders[i]) < vec.len(),
+             forall|j: int| 0 <= j < vec.len() ==> (#[trigger] vec[j]).weight > 0,
+    ensures prefix(vec, leaders, k) >= 1,
+    decreases k
+{ if k > 1 { lemma_prefix_pos(vec, leaders, k - 1); } else { assert(prefix(vec, leaders, 0) == 0); } assert(leaders[k - 1] < vec.len()); assert(vec[leaders[k - 1] as int].weight > 0); }
+pub proof fn lemma_prefix_ext(vec: Seq<ValidatorInfo>, a: Seq<usize>, b: Seq<usize>, k: int)
+    requires 0 <= k <= a.len(), k <= b.len(), forall|i: int| 0 <= i < k ==> a[i] == b[i],
+    ensures prefix(vec, a, k) == prefix(vec, b, k),
+    decreases k
+{ if k > 0 { lemma_prefix_ext(vec, a, b, k - 1); } }
+"""
+
 SPEC = r"""
 // ---------------- specification, written from the property statement (C11) ----------------
 pub open spec fn prefix(vec: Seq<ValidatorInfo>, leaders: Seq<usize>, k: int) -> int
@@ -93,6 +244,9 @@ impl Schedule {
         &&& self.total_weight == total(self.vec@, self.vec@.len() as int)
         &&& self.total_weight >= 1
         &&& self.leader_weight >= 1
+        // established by Schedule::new: validators sorted by key (so the listing order is irrelevant) and `indexes` = inverse of `vec`
+        &&& sorted_by_key(self.vec@)
+        &&& self.indexes.inverse_of(self.vec@)
     }
     // "changing every `frequency` views (never rotating when the frequency is 0)"
     pub open spec fn spec_turn(&self, view: u64) -> u64 {
@@ -203,7 +357,54 @@ def build(repo):
     U.item(F, "enum LeaderSelectionMode", attrs="#[derive(PartialEq, Eq, Structural)]")
     U.item(F, "struct LeaderSelection")
     U.item(F, "struct Schedule", subs=[("BTreeMap<validator::PublicKey, usize>", "KeyIndex")])
+    U.raw(PRELUDE_NEW, label="prelude Schedule::new")
     U.raw(SPEC, label="spec")
+    U.raw(LEMMAS_NEW, label="lemmas Schedule::new", canary=True)
+    U.fn(F, "impl Schedule :: fn new", wrap="impl Schedule", ret="r",
+         post_subs=[("Ok(Self {", "proof { lemma_total_pos(vec@, vec@.len() as int); lemma_prefix_pos(vec@, leaders@, leaders@.len() as int); } Ok(Self {")],
+         proof_at_start="broadcast use vstd::seq_lib::group_to_multiset_ensures; proof { assert(validators@.subrange(0, 0) =~= Seq::<ValidatorInfo>::empty()); }",
+         header_subs=[("validators: impl IntoIterator<Item = ValidatorInfo>", "validators: Vec<ValidatorInfo>   /* R-type: the iterator's items, in order */"),
+                      ("anyhow::Result<Self>", "Result<Self, AnyhowError>")],
+         subs=[("BTreeMap::new()", "KeyMap::new()   /* R-type */"),
+               ("let vec: Vec<_> = map.into_values().collect();", "proof { assert(validators@.subrange(0, validators@.len() as int) =~= validators@); } let vec: Vec<_> = tmpl_map_into_values_collect(map);   /* R-chain */"),
+               ("BTreeMap<validator::PublicKey, usize>", "KeyIndex"),
+               ("map.insert(v.key.clone(), v);", "let ghost verif_e0 = map.entries(); map.insert(v.key.clone(), v); "
+                "proof { broadcast use vstd::seq_lib::group_to_multiset_ensures; let p = choose|p: int| 0 <= p <= verif_e0.len() && map.entries() == verif_e0.insert(p, v); lemma_sums_insert(verif_e0, p, v); "
+                "assert(validators@.subrange(0, verif_i0 as int) =~= validators@.subrange(0, verif_i0 as int - 1).push(v)); "
+                "assert forall|j: int| 0 <= j < map.entries().len() implies (#[trigger] map.entries()[j]).weight > 0 by { if j < p { assert(map.entries()[j] == verif_e0[j]); } else if j > p { assert(map.entries()[j] == verif_e0[j - 1]); } } }")],
+         chains=[dict(recv="vec", methods=["iter", "enumerate", "map", "collect"],
+                      closures={2: dict(ty="(usize, &ValidatorInfo)", ret="x: (PublicKey, usize)", spec="ensures x.0 == {p}.1.key && x.1 == {p}.0")},
+                      template="{{ proof {{ broadcast use key_lt_irrefl; assert forall|i: int, j: int| 0 <= i < j < vec@.len() implies (#[trigger] vec@[i]).key != (#[trigger] vec@[j]).key by {{ assert(key_lt(vec@[i].key, vec@[j].key)); }} }} "
+                               "tmpl_iter_enumerate_map_collect_index(&vec, {a2}) }}"),
+                 dict(recv="vec", methods=["iter", "enumerate", "filter_map", "collect"],
+                      closures={2: dict(ty="(usize, &ValidatorInfo)", ret="o: Option<usize>", spec="ensures o == (if {p}.1.leader { Some({p}.0) } else { None })")},
+                      template="{{ proof {{ lemma_leaders(vec@, vec@.len() as int); }} tmpl_iter_enumerate_filter_map_collect(&vec, {a2}, Ghost(leader_idx(vec@))) }}")],
+         index_loops={0: dict(prefix="for v in validators", len="validators.len()", spec_len="validators@.len()", at="verif_nth_owned(&validators, {i})", pat="v",
+                              inv="""
+            0 <= {i} <= validators@.len(),
+            sorted_by_key(map.entries()), map.entries().len() == {i},
+            forall|j: int| 0 <= j < map.entries().len() ==> (#[trigger] map.entries()[j]).weight > 0,
+            total_weight == total(map.entries(), map.entries().len() as int),
+            leader_weight == lsum(map.entries(), map.entries().len() as int),
+            leader_weight <= total_weight,
+            // every validator given so far is in the map (and nothing else): same multiset
+            map.entries().to_multiset() == validators@.subrange(0, {i} as int).to_multiset(),
+""")},
+         spec="""
+    ensures r matches Ok(s) ==> s.wf()
+            // the schedule is the key-sorted arrangement of exactly the validators given: the order of the listing is irrelevant
+            && sorted_by_key(s.vec@) && s.vec@.to_multiset() == validators@.to_multiset()
+            && s.leader_selection == leader_selection,
+""")
+    U.fn(F, "impl Schedule :: fn contains", wrap="impl Schedule", ret="r", header_subs=[("validator::PublicKey", "PublicKey")], spec="""
+    requires self.wf(),
+    ensures r == (exists|j: int| 0 <= j < self.vec@.len() && self.vec@[j].key == *validator),
+""")
+    U.fn(F, "impl Schedule :: fn index", wrap="impl Schedule", ret="r", header_subs=[("validator::PublicKey", "PublicKey")], spec="""
+    requires self.wf(),
+    ensures r.is_some() ==> r.unwrap() < self.vec@.len() && self.vec@[r.unwrap() as int].key == *validator,
+            r.is_none() ==> forall|j: int| 0 <= j < self.vec@.len() ==> self.vec@[j].key != *validator,
+""")
     # small accessors (so that code using them still type-checks after a refactoring); contracts say what they return
     U.fn(F, "impl Schedule :: fn len", wrap="impl Schedule", ret="r", spec="    ensures r == self.vec@.len(),\n")
     U.fn(F, "impl Schedule :: fn total_weight", wrap="impl Schedule", ret="r", spec="    ensures r == self.total_weight,\n")
